@@ -110,8 +110,11 @@ pub fn common_labels(case: &PlanCase, trace: &Trace, ctx: &mut Ctx) {
         if let Op::Solve { .. } | Op::SolveTimed { .. } = st.op {
             ctx.label(format!("solve:{}", st.res.tag()));
         }
-        if matches!(st.res, Res::Panic { .. }) {
+        if let Res::Panic { msg, .. } = &st.res {
             ctx.panicked = true;
+            if msg.starts_with(crate::wrap::HARNESS_ABORT) {
+                ctx.discard("case aborted by the harness (validity-query hard cap)");
+            }
         }
     }
     if trace.rec.cap_hit {
